@@ -158,6 +158,7 @@ func c11(w *core.World, r *core.Report) {
 
 	// ---- NO-PREFIX-ON-JOIN (shared)
 	ruleNoPrefixOnJoin(w, r)
+	ruleNoSplitOfJoin(w, r)
 
 	// ---- SORT-SHARED
 	r.Rule("SORT-SHARED", 12, "no in-place sort / reverse of a slice that shares its backing array with a struct field, a package variable or the result of a repository function that hands out such state (depth 3): the key names are needed in key-statement order by some consumers (XML key elements) and in name order by others (tree levels); sorting a shared slice changes the order for everyone. Slices made locally, library results and parameters are not reported.")
